@@ -111,6 +111,10 @@ func evaluate(c Case) verdict {
 		return evalParseXOnly(c)
 	case "volume:schnorr", "volume:ecdsa":
 		return evalVolume(c)
+	case "ladder:ecdsa", "ladder:ecdsa-shifted", "ladder:p2c":
+		return evalLadder(c)
+	case "buffers":
+		return evalBuffers(c)
 	case "sign:ecdsa-random", "sign:ecdsa-rfc6979", "sign:ecdsa-nonce", "sign:schnorr", "recover":
 		return evalSigner(c)
 	}
@@ -132,7 +136,7 @@ func replay(file string) {
 	if err := json.Unmarshal(b, &rec); err != nil {
 		ev.HarnessError("%v", err)
 	}
-	if rec.Replay.API == "sign:ecdsa-rfc6979" {
+	if rec.Replay.API == "sign:ecdsa-rfc6979" || (rec.Replay.API == "buffers" && rec.Replay.Rep%2 == 1) {
 		btc.EcdsaSignWithRFC6979 = true
 	}
 	v := evaluate(rec.Replay)
@@ -205,6 +209,7 @@ func main() {
 	genP2C(r.Thorough(), emit)
 	genParse(r.Thorough(), emit)
 	genXgeN(emit)
+	genLadder(r.Thorough(), emit)
 	genVolume(r.Thorough(), emit)
 	nVerify := len(all)
 	fmt.Fprintf(os.Stderr, "generated %d verification cases (%.1fs)\n", nVerify, time.Since(t0).Seconds())
@@ -214,14 +219,16 @@ func main() {
 	// signers: the RFC6979 switch is a package-level variable, so the two ECDSA
 	// modes run in separate phases
 	var sRandom, sDet []Case
-	genSigners(r.Thorough(), func(c Case) {
+	emitSigner := func(c Case) {
 		c.idx = nVerify + len(sRandom) + len(sDet)
-		if c.API == "sign:ecdsa-rfc6979" {
+		if c.API == "sign:ecdsa-rfc6979" || (c.API == "buffers" && c.Rep%2 == 1) {
 			sDet = append(sDet, c)
 		} else {
 			sRandom = append(sRandom, c)
 		}
-	})
+	}
+	genSigners(r.Thorough(), emitSigner)
+	genBuffers(emitSigner)
 	btc.EcdsaSignWithRFC6979 = false
 	run(sRandom)
 	btc.EcdsaSignWithRFC6979 = true
@@ -238,7 +245,7 @@ func main() {
 	sort.Strings(keys)
 	for _, k := range keys {
 		f := co.best[k]
-		if f.c.API == "sign:ecdsa-rfc6979" {
+		if f.c.API == "sign:ecdsa-rfc6979" || (f.c.API == "buffers" && f.c.Rep%2 == 1) {
 			btc.EcdsaSignWithRFC6979 = true
 		}
 		again := evaluate(f.c)
